@@ -17,7 +17,21 @@ _P_DIRS = ["", "", "a", "a/b", "a/b/", "/a", "b", "a[1]"]
 _C_DIRS = ["", "", "a", "a/b", "a/b/", "b", "a[1]"]
 _K_DIRS = ["", "a", "b", "a/b", "a[1]"]
 _NONASCII = ["\u00e9", "caf\u00e9", "a/\u00e9", "\u00e9/", "!\u00e9", "\u00e9 ", "\u00e9\t", "*.\u00e9", "/\u00e9", "\u00e9\\ ",
-             "\u00e9a", "\u00e9.txt", "\u00e9/a", "a\u00e9b/", "!\u00e9a", "\u00e9*", "\\!\u00e9", "a/\u00e9/b", "\u00e9\u00e9"]
+             "\u00e9a", "\u00e9.txt", "\u00e9/a", "a\u00e9b/", "!\u00e9a", "\u00e9*", "\\!\u00e9", "a/\u00e9/b", "\u00e9\u00e9",
+             "donn\u00e9es/\u00e9", "\u65e5\u672c", "/\u65e5\u672c", "\u65e5\u672c/", "!\u65e5\u672c", "a/\U0001d11e", "\U0001d11e", "*\u00e9", "?\u672c", "[a\u00e9]",
+             # Unicode white space (str::trim_end / str::trim strip it): NBSP, NEL, ideographic space, thin space, line separator
+             "a\u00a0", "a \u3000", "\u00a0", "\u00e9\u2009", "\u0085a", "a\u2028", "\u00e9\u00a0 ", "a\u00a0/", "a/\u3000", "\u3000\u00a0 ", "a\\ \u00a0",
+             "a\u1680", "a\u205f", "a\u202f", "a\u200a", "a\u200b", "a\u00a1", "a\u0084"]
+# names with multi-byte characters (2, 3 and 4 bytes in UTF-8); fast-glob and the model both work on BYTES
+_U_NAMES = ["\u00e9", "caf\u00e9", "\u00e9a", "donn\u00e9es", "\u65e5\u672c", "\u65e5\u672c.txt", "a\u00e9b", "\U0001d11e", "\u00e9.tmp", "\u00fc\u00e9"]
+
+
+def _nbytes(ch):
+    return len(ch.encode("utf-8"))
+
+
+def ends_multibyte(s):
+    return bool(s) and ord(s[-1]) > 127
 
 
 def _hx(s):
@@ -30,8 +44,19 @@ def _unhx(f):
 
 def _seg(rng, name=None):
     """one segment of a glob; when `name` is given the segment is built to match that name (mostly)"""
-    n = name if name is not None else rng.choice(_FILES)
+    n = name if name is not None else (rng.choice(_U_NAMES) if rng.random() < 0.1 else rng.choice(_FILES))
     k = rng.random()
+    if ord(max(n)) > 127 and k >= 0.42 and rng.random() < 0.5:
+        # byte-level variants: one '?' per BYTE of a character, a class that holds one byte of it, '*' before its last byte
+        i = rng.randrange(len(n))
+        v = rng.random()
+        if v < 0.4:
+            return n[:i] + "?" * _nbytes(n[i]) + n[i + 1:]
+        if v < 0.6:
+            return n[:i] + "".join("[%s]" % n[i] for _ in range(_nbytes(n[i]))) + n[i + 1:]
+        if v < 0.8:
+            return n[:i] + "[!a]" * _nbytes(n[i]) + n[i + 1:]
+        return n[:i] + "*" + n[i + 1:]
     if k < 0.42:
         return n
     if k < 0.54:
@@ -102,6 +127,8 @@ def _rule_line(rng, hint=None):
     elif p < 0.21:
         body = "!!" + body
     t = rng.random()
+    if t > 0.97:
+        body += rng.choice(["/", "//", "/ ", "//a"])       # a slash that is last only after the final slash is cut
     if t < 0.08:
         body += rng.choice([" ", "  ", "\t", " \t "])
     elif t < 0.11:
@@ -113,7 +140,11 @@ def _rule_line(rng, hint=None):
 
 def _comps(rng, maxdepth=5):
     d = rng.randint(1, maxdepth)
-    return [rng.choice(_DIRS) for _ in range(d - 1)] + [rng.choice(_FILES)]
+    c = [rng.choice(_DIRS) for _ in range(d - 1)] + [rng.choice(_FILES)]
+    if rng.random() < 0.22:                  # multi-byte names, somewhere on the path
+        for _ in range(rng.randint(1, 2)):
+            c[rng.randrange(len(c))] = rng.choice(_U_NAMES)
+    return c
 
 
 def _path(rng):
@@ -213,32 +244,62 @@ def gen_glob_cases(rng, n_valid, n_malformed):
         elif r < 0.62:
             glob, path = rng.choice([("", ""), ("", "a"), ("a", ""), ("", "/"), ("*", ""), ("**", ""), ("!", ""), ("[", ""),
                                      ("\\", ""), ("?", ""), ("**/", ""), ("/**", ""), ("a/**", "a"), ("**/a", "a")])
-        else:
+        elif r < 0.9:
             glob = _random_soup(rng, "aab/**?[]!\\-.", 9)
             path = _random_soup(rng, "aab//.-]", 7) if rng.random() < 0.8 else glob
+        else:                                      # the same soup with multi-byte characters
+            glob = _random_soup(rng, "a\u00e9\u672c/**??[]!\\-\u00e9", 9)
+            path = _random_soup(rng, "a\u00e9\u672c//.\u00e9", 6) if rng.random() < 0.8 else glob
         out.append("m %s %s" % (_hx(glob), _hx(path)))
     return out
 
 
-def gen_pattern_cases(rng, n):
+class Switches:
+    """which repairs are in the tree under test (derived from the behaviour of the code by probe_switches):
+    f17 = locality test in IgnoreRules::check (P17), f35 = global ignore patterns are final (P35),
+    f36 = Pattern::new drops the last character, not the last byte (P36)"""
+    def __init__(self, f17, f35, f36):
+        self.f17, self.f35, self.f36 = bool(f17), bool(f35), bool(f36)
+
+    @property
+    def s(self):
+        return "%d%d%d" % (self.f17, self.f35, self.f36)
+
+    def with_f17(self, v=True):
+        return Switches(v, self.f35, self.f36)
+
+    def as_dict(self):
+        return {"fixed_P17": self.f17, "fixed_P35": self.f35, "fixed_P36": self.f36}
+
+
+def _u_line(rng):
+    """a rule line about names with multi-byte characters"""
+    a, b = rng.choice(_U_NAMES), rng.choice(_U_NAMES + _DIRS)
+    return rng.choice(["", "", "!", "/", "\\!"]) + rng.choice([a, b + "/" + a, a + "/", "*." + a, a + "*", b + "/**/" + a, "**/" + a, a + "/" + b]) \
+        + rng.choice(["", "", "", " ", "\u00a0", "\t", "\\ "])
+
+
+def gen_pattern_cases(rng, n, sw):
     """`p` cases: Pattern::new on one line, Source::Global or Source::File"""
     out = []
     for i in range(n):
-        line = _NONASCII[i % len(_NONASCII)] if i % 60 == 7 else _rule_line(rng)
+        line = _NONASCII[(i // 12) % len(_NONASCII)] if i % 12 == 7 else (_u_line(rng) if i % 12 == 3 else _rule_line(rng))
         if rng.random() < 0.03:
             line += rng.choice(["\r", " \r", "\n"])
         if rng.random() < 0.3:
-            out.append("p g - %s" % _hx(line))
+            out.append("p g - %s %d" % (_hx(line), sw.f36))
         else:
-            out.append("p f %s %s" % (_hx(rng.choice(_P_DIRS)), _hx(line)))
+            out.append("p f %s %s %d" % (_hx(rng.choice(_P_DIRS + ["donn\u00e9es", "a/\u65e5\u672c"])), _hx(line), sw.f36))
     return out
 
 
 def gen_check_content(rng, i=0):
     """the text of one ignore file"""
     lines = [_rule_line(rng) for _ in range(rng.randint(0, 6))]
-    if i % 25 == 3:
-        lines.insert(rng.randint(0, len(lines)), _NONASCII[(i // 25) % len(_NONASCII)])
+    if i % 8 == 3:
+        lines.insert(rng.randint(0, len(lines)), _NONASCII[(i // 8) % len(_NONASCII)])
+    if i % 8 == 5:
+        lines.insert(rng.randint(0, len(lines)), _u_line(rng))
     eol = rng.choice(["\n", "\n", "\r\n", None])
     txt = ""
     for j, l in enumerate(lines):
@@ -247,18 +308,28 @@ def gen_check_content(rng, i=0):
     return txt
 
 
-def gen_content_cases(rng, n):
+def gen_content_cases(rng, n, sw):
     """`c` cases: content_to_patterns on the text of an ignore file"""
-    return ["c %s %s" % (_hx(rng.choice(_C_DIRS)), _hx(gen_check_content(rng, i))) for i in range(n)]
+    return ["c %s %s %d" % (_hx(rng.choice(_C_DIRS)), _hx(gen_check_content(rng, i)), sw.f36) for i in range(n)]
 
 
-def gen_check_cases(rng, n, fixed=False):
-    """`k` cases: IgnoreRules::check with 1-4 rule lines from 1-3 ignore files"""
+_K_GLOBALS = [".xvc\n.git\n", ".xvc\n.git\n", ".xvc\n.git\n", "", "*.tmp\n", ".git\n!keep\n", "foo*\n!foo.txt\n.xvc", "a/\n", "/a/b\n.git"]
+_K_WHITE = ["!.git", "!.xvc", "!.*", "!*", "!.git/", "!**/.git", "!/.xvc", "!.???", "!a/.git", "!.git*"]
+
+
+def gen_check_cases(rng, n, sw):
+    """`k` cases: IgnoreRules::check with 1-4 rule lines from 1-3 ignore files; `K` cases: the same on top of
+    global patterns (IgnoreRules::from_global_patterns), often about .xvc / .git and a whitelist line"""
     out = []
-    f = "1" if fixed else "0"
+    f = sw.s
     for i in range(n):
-        below = rng.choice(["", "a", "b", "a/b", "a[1]", "c", "a/b/c", "b/a", "a1"])
+        below = rng.choice(["", "a", "b", "a/b", "a[1]", "c", "a/b/c", "b/a", "a1", "donn\u00e9es"])
         comps = [c for c in below.split("/") if c] + ([rng.choice(_DIRS)] if rng.random() < 0.3 else []) + [rng.choice(_FILES)]
+        with_globals = i % 5 < 2
+        if with_globals and rng.random() < 0.6:
+            comps[rng.randrange(len(comps)) if rng.random() < 0.3 else -1] = rng.choice([".git", ".xvc", ".git", ".xvc", ".gitx", ".xv", "a.git"])
+        elif rng.random() < 0.1:
+            comps[-1] = rng.choice(_U_NAMES)
         r = rng.random()
         if r < 0.88:
             path = "/r/" + "/".join(comps)
@@ -276,12 +347,21 @@ def gen_check_cases(rng, n, fixed=False):
         items = []
         for _ in range(rng.randint(1, 4)):
             d = rng.choice(dirs)
-            if i % 200 == 11 and not items:
+            if i % 40 == 11 and not items:
                 line = rng.choice(_NONASCII)
+            elif i % 40 == 13 and not items:
+                line = _u_line(rng)
+            elif with_globals and rng.random() < 0.35:
+                line = rng.choice(_K_WHITE)
+                if rng.random() < 0.6:
+                    d = rng.choice(["", "", below])
             else:
                 line = _rule_line(rng, comps if rng.random() < 0.7 else None)
             items.append("%s:%s" % (_hx(d), _hx(line)))
-        out.append("k %s %s %s" % (f, ",".join(items), _hx(path)))
+        if with_globals:
+            out.append("K %s %s %s %s" % (f, _hx(rng.choice(_K_GLOBALS)), ",".join(items), _hx(path)))
+        else:
+            out.append("k %s %s %s" % (f, ",".join(items), _hx(path)))
     return out
 
 
@@ -298,7 +378,54 @@ def probe_fixed(globdrv_bin):
     raise RuntimeError("probe_fixed: globdrv answered %r (rc=%s)" % (ans, rc))
 
 
+def probe_switches(globdrv_bin):
+    """which repairs are in the code under test, decided by the behaviour of the real functions on every run
+    (an answer that is neither the repaired nor the unrepaired one is a correspondence failure: RuntimeError):
+      P17  `foo.tmp` of b/.xvcignore must not touch /r/a/foo.tmp                  (IgnoreRules::check)
+      P35  globals `.xvc\\n.git\\n` + root line `!.git`: /r/a/.git is Ignore, not Whitelist; asked twice, with the
+           whitelist line coming from the root and from a/ , and for .xvc                 (IgnoreRules::check)
+      P36  Pattern::new on a line whose last character is multi-byte returns a pattern, no panic
+           (2-, 3- and 4-byte characters, Source::Global and Source::File)"""
+    f17 = probe_fixed(globdrv_bin)
+    g = _hx(".xvc\n.git\n")
+    l35 = ["K 000 %s %s:%s %s" % (g, _hx(""), _hx("!.git"), _hx("/r/a/.git")),
+           "K 000 %s %s:%s %s" % (g, _hx("a"), _hx("!.git"), _hx("/r/a/.git")),
+           "K 000 %s %s:%s %s" % (g, _hx(""), _hx("!.*"), _hx("/r/.xvc"))]
+    rc, out = C.run_lines(globdrv_bin, l35)
+    if out == ["Whitelist"] * 3:
+        f35 = False
+    elif out == ["Ignore"] * 3:
+        f35 = True
+    else:
+        raise RuntimeError("probe_switches: P35 probe inconclusive, globdrv answered %r (rc=%s)" % (out, rc))
+    l36 = ["p g - %s" % _hx("\u00e9"), "p f %s %s" % (_hx("a"), _hx("donn\u00e9es/\u65e5\u672c")), "p g - %s" % _hx("!a/\U0001d11e")]
+    rc, out = C.run_lines(globdrv_bin, l36)
+    if out == ["PANIC"] * 3:
+        f36 = False
+    elif len(out) == 3 and all(o.startswith("glob=") for o in out):
+        f36 = True
+    else:
+        raise RuntimeError("probe_switches: P36 probe inconclusive, globdrv answered %r (rc=%s)" % (out, rc))
+    return Switches(f17, f35, f36)
+
+
 # ---- classification, shrinking, the diff -------------------------------------------------------------
+def _layout(f):
+    """(positions of plain hex fields, position of the rule-item field or None) of a split case line"""
+    k = f[0]
+    if k == "m":
+        return [1, 2], None
+    if k == "p":
+        return [2, 3], None
+    if k == "c":
+        return [1, 2], None
+    if k == "k":
+        return [3], 2
+    if k == "K":
+        return [2, 4], 3
+    return [], None
+
+
 def _glob_case_info(line):
     """(kind, nontrivial) of a case line"""
     f = line.split(" ")
@@ -310,15 +437,18 @@ def _glob_case_info(line):
         return "p", bool(l) and not l.startswith("#")
     if f[0] == "c":
         return "c", any(l.strip() and not l.startswith("#") for l in _unhx(f[2]).split("\n"))
-    if f[0] == "k":
-        p = _unhx(f[3])
+    if f[0] in ("k", "K"):
+        _, ri = _layout(f)
+        p = _unhx(f[-1])
         s = p[2:] if p.startswith("/r/") else p
         nt = False
-        for it in ([] if f[2] == "-" else f[2].split(",")):
+        for it in ([] if f[ri] == "-" else f[ri].split(",")):
             d = _unhx(it.split(":")[0]).strip("/")
             if d and not ("/" + s.lstrip("/")).startswith("/" + d + "/"):
                 nt = True
-        return "k", nt
+            if f[0] == "K" and _unhx(it.split(":")[1]).startswith("!") and (".git" in s.split("/") or ".xvc" in s.split("/")):
+                nt = True
+        return f[0], nt
     return f[0], False
 
 
@@ -335,19 +465,14 @@ def _glob_answer_class(kind, ans):
 def _glob_shrink(line, differs):
     """greedy: drop rule items, then single characters of every string field, while differs(line)"""
     f = line.split(" ")
+    hexpos, ri = _layout(f)
 
     def fields_of(fs):
         # positions of (field index, item index or None, part index or None) holding a hex string
-        pos = []
-        for i, x in enumerate(fs):
-            if i == 0 or (fs[0] in ("p", "k") and i == 1):
-                continue
-            if fs[0] == "k" and i == 2:
-                if x != "-":
-                    for j, it in enumerate(x.split(",")):
-                        pos += [(i, j, 0), (i, j, 1)]
-            else:
-                pos.append((i, None, None))
+        pos = [(i, None, None) for i in hexpos]
+        if ri is not None and fs[ri] != "-":
+            for j, it in enumerate(fs[ri].split(",")):
+                pos += [(ri, j, 0), (ri, j, 1)]
         return pos
 
     def get(fs, p):
@@ -373,16 +498,16 @@ def _glob_shrink(line, differs):
         budget[0] -= 1
         return differs(" ".join(fs))
 
-    if f[0] == "k" and f[2] != "-":
-        its = f[2].split(",")
+    if ri is not None and f[ri] != "-":
+        its = f[ri].split(",")
         j = 0
         while j < len(its) and len(its) > 1:
             cand = its[:j] + its[j + 1:]
-            if ok(f[:2] + [",".join(cand)] + f[3:]):
+            if ok(f[:ri] + [",".join(cand)] + f[ri + 1:]):
                 its = cand
             else:
                 j += 1
-        f = f[:2] + [",".join(its)] + f[3:]
+        f = f[:ri] + [",".join(its)] + f[ri + 1:]
     changed = True
     while changed and budget[0] > 0:
         changed = False
@@ -400,24 +525,37 @@ def _glob_shrink(line, differs):
 
 def _glob_readable(line):
     f = line.split(" ")
+    hexpos, ri = _layout(f)
     out = []
     for i, x in enumerate(f):
-        if i == 0 or (f[0] in ("p", "k") and i == 1):
-            out.append(x)
-        elif f[0] == "k" and i == 2 and x != "-":
+        if i in hexpos:
+            out.append(repr(_unhx(x)))
+        elif i == ri and x != "-":
             out.append(",".join("%r:%r" % tuple(_unhx(y) for y in it.split(":")) for it in x.split(",")))
         else:
-            out.append(repr(_unhx(x)))
+            out.append(x)
     return " ".join(out)
 
 
-def glob_correspondence(chk, model_bin, globdrv_bin, tier, fixed):
+def with_switches(line, sw):
+    """a recorded glob-stage line (corpus, replay) with its flag fields set to the switches of the tree under test"""
+    f = line.split(" ")
+    if f[0] == "p":
+        f = f[:4] + ["%d" % sw.f36]
+    elif f[0] == "c":
+        f = f[:3] + ["%d" % sw.f36]
+    elif f[0] in ("k", "K"):
+        f[1] = sw.s
+    return " ".join(f)
+
+
+def glob_correspondence(chk, model_bin, globdrv_bin, tier, sw):
     """runs globmodel and globdrv on the generated cases, diffs line by line; returns the distribution"""
     import time
     rng = chk.rng
     scale = 1 if tier == "quick" else 35
-    lines = (gen_glob_cases(rng, 17500 * scale, 3000 * scale) + gen_pattern_cases(rng, 3000 * scale)
-             + gen_content_cases(rng, 1000 * scale) + gen_check_cases(rng, 4000 * scale, fixed))
+    lines = (gen_glob_cases(rng, 17500 * scale, 3000 * scale) + gen_pattern_cases(rng, 3000 * scale, sw)
+             + gen_content_cases(rng, 1000 * scale, sw) + gen_check_cases(rng, 5000 * scale, sw))
     n_mal0, n_mal1 = 17500 * scale, 20500 * scale
     t0 = time.time()
     rc_m, out_m = C.run_lines(model_bin, lines, shards=8)
@@ -433,12 +571,14 @@ def glob_correspondence(chk, model_bin, globdrv_bin, tier, fixed):
         kinds[kind] = kinds.get(kind, 0) + 1
         if nt:
             nontriv[kind] = nontriv.get(kind, 0) + 1
-        a = "%s:%s" % (kind, _glob_answer_class(kind[0], orr))
+        a = "%s:%s" % (kind, _glob_answer_class(kind[0].lower(), orr))
+        if kind[0] == "m" and any(ord(ch) > 127 for ch in _unhx(line.split(" ")[1]) + _unhx(line.split(" ")[2])):
+            answers["m_multibyte:" + orr] = answers.get("m_multibyte:" + orr, 0) + 1
         answers[a] = answers.get(a, 0) + 1
         chk.count(line, nt)
         if om != orr:
             bad.append((line, om, orr))
-    for i in (0, n_mal0, n_mal1, n_mal1 + 3000 * scale, len(lines) - 1):
+    for i in (0, n_mal0, n_mal1, n_mal1 + 7, n_mal1 + 3000 * scale, len(lines) - 1, len(lines) - 4):
         chk.sample(_glob_readable(lines[i]), limit=12)
     if rc_m != 0 or rc_r != 0 or len(out_m) != len(lines) or len(out_r) != len(lines):
         chk.fail("correspondence", "a glob driver crashed or produced a different number of lines (model rc=%s n=%d, impl rc=%s n=%d, cases %d)" % (
@@ -468,7 +608,7 @@ def glob_correspondence(chk, model_bin, globdrv_bin, tier, fixed):
     tot = pos + answers.get("m:0", 0)
     res = {"kinds": kinds, "nontrivial": nontriv, "answers": dict(sorted(answers.items())),
            "m_positive_ratio": round(pos / tot, 3) if tot else 0.0,
-           "disagreements": len(bad), "fixed_P17": bool(fixed),
+           "disagreements": len(bad), "switches": sw.as_dict(),
            "wall_model_s": round(t1 - t0, 1), "wall_impl_s": round(t2 - t1, 1)}
     C.log("glob correspondence: %d cases %s, m positive ratio %.3f, %d disagreement(s), model %.1fs impl %.1fs" % (
         len(lines), kinds, res["m_positive_ratio"], len(bad), t1 - t0, t2 - t1))
@@ -502,7 +642,16 @@ TRUSTED = [
     "modelled, not verified: fast-glob 0.3.3 glob_match_normal as Glob/Match.v (transliteration, differential-tested); walker/src/pattern.rs Pattern::new and "
     "walker/src/lib.rs content_to_patterns / update_ignore_rules as Glob/Pattern.v; walker/src/ignore_rules.rs (check, merge_with, add_patterns, from_global_patterns), "
     "walk_serial.rs, walk_parallel.rs as Walker/Model.v; rayon find_any is an `any`; read_dir order is the order of the children list (every order is covered by the theorems); "
-    "no symlinks, no unreadable directories, ASCII ignore files in generated trees",
+    "no symlinks, no unreadable directories in generated trees",
+    "strings are BYTE lists holding valid UTF-8, in the model and in fast-glob alike: fast_glob::glob_match works on glob.as_bytes() / path.as_bytes(), so `?` and a `[...]` class "
+    "consume ONE BYTE (not one character: `?` does not match a two-byte character, `??` does), `*` runs over any bytes but '/', a class range compares byte values; Glob/Match.v "
+    "does the same on list N, and the correspondence generator feeds both with names, globs and ignore lines holding 2-, 3- and 4-byte characters (about one case in five). "
+    "The character tests of Pattern::new / content_to_patterns ('!', '/', '#', '\\', white space) are tests on UTF-8 bytes in the model: the ASCII ones cannot occur inside a multi-byte "
+    "sequence, and trim_end / trim know the UTF-8 encodings of the 19 non-ASCII White_Space characters (Glob/Pattern.v ws_len). Byte strings that are not UTF-8 cannot reach these "
+    "functions (&str); a file name that is not UTF-8 is outside the domain (to_string_lossy)",
+    "switches fixed_P17 / fixed_P35 / fixed_P36 of the model are derived from the behaviour of the real IgnoreRules::check and Pattern::new on every run (probe_switches: three probes "
+    "for P35, three for P36, one for P17; an answer that is neither the repaired nor the unrepaired behaviour raises and fails the check); the class predicates follow the switches "
+    "(a repaired class explains nothing)",
     "environment assumptions: the tree does not change during a walk; file names are non-empty and contain no '/' (wf_tree); SegQueue / RwLock / scoped threads behave as specified",
 ]
 
@@ -514,22 +663,19 @@ def _load_gen():
 
 
 def install_findings_fallback():
-    """known_findings.json is assembled by the coordinator from findings.d/; until it contains the
-    entries of this property, the fragment findings.d/C09.json is read directly (same content)."""
+    """known_findings.json is assembled by the coordinator from findings.d/; the fragment findings.d/C09.json
+    is the source and can be newer (an entry added or flipped to fixed since the last assembly), so the open
+    entries of this property are read from the fragment whenever it exists (same content otherwise)."""
     orig = C.known_findings
 
     def kf(prop):
-        r = orig(prop)
-        try:
-            data = json.load(open(os.path.join(C.ROOT, "known_findings.json")))
-            if any(f.get("property") == prop for f in data.get("findings", [])):
-                return r
-        except (OSError, ValueError):
-            pass
         p = os.path.join(C.ROOT, "findings.d", prop + ".json")
         if os.path.exists(p):
-            return [f for f in json.load(open(p)) if f.get("property") == prop and f.get("status") == "open"]
-        return r
+            try:
+                return [f for f in json.load(open(p)) if f.get("property") == prop and f.get("status") == "open"]
+            except ValueError:
+                pass
+        return orig(prop)
     if getattr(orig, "_c09_fallback", False):
         return
     kf._c09_fallback = True
@@ -625,19 +771,29 @@ def _walk_line(rng, names, inside):
     return body
 
 
-def gen_tree(rng, max_nodes=30):
+_W_UDIRS = ["donn\u00e9es", "\u65e5\u672c", "\u00e9"]
+_W_UFILES = ["\u00e9", "caf\u00e9", "\u65e5\u672c", "\u00e9.tmp", "\u65e5\u672c.txt", "\U0001d11e", "a\u00e9b"]
+_SPECIAL_WHITE = ["!.git", "!.xvc", "!.*", "!*", "!.git/", "!**/.git", "!.xvc/", "!.???", "!.git*"]
+
+
+def gen_tree(rng, sw=None, max_nodes=30):
     """a tree of at most max_nodes entries with ignore files at every depth, .xvc / .git directories,
-    and (often) the same file names in sibling directories"""
+    (often) the same file names in sibling directories, in one tree out of three file and directory
+    names with multi-byte characters, and in one out of six a whitelist line aimed at .xvc / .git.
+    sw: the switches of the tree under test -- without the repair of P36 a line whose last character is
+    multi-byte (the walk panics: known finding) is kept in one case out of six only, so that most
+    trees still exercise the walkers; with the repair all are kept"""
     entries, dirs = [], [""]
     budget = [max_nodes - rng.randint(0, 12)]
     shared = rng.sample(_W_FILES, rng.randint(1, 3))
+    uni = rng.random() < 0.34
 
     def fill(d, depth):
         nd = rng.randint(1, 4) if depth == 0 else (rng.randint(0, 2) if depth < 3 else 0)
         nf = rng.randint(0, 3) if depth == 0 else rng.randint(0, 4)
-        pool = _W_DIRS + (["a[1]"] if rng.random() < 0.08 else [])
+        pool = _W_DIRS + (["a[1]"] if rng.random() < 0.08 else []) + (_W_UDIRS if uni else [])
         subs = rng.sample(pool, min(nd, len(pool)))
-        files = set(rng.sample(_W_FILES, min(nf, len(_W_FILES))))
+        files = set(rng.sample(_W_FILES + (_W_UFILES if uni else []), min(nf, len(_W_FILES))))
         if depth > 0 and rng.random() < 0.6:
             files.add(rng.choice(shared))
         for f in sorted(files):
@@ -664,9 +820,23 @@ def gen_tree(rng, max_nodes=30):
         if rng.random() < (0.45 if d == "" else 0.4):
             inside = [n[len(d) + 1 if d else 0:] for n in names if under(n, d)]
             lines = [_walk_line(rng, names, inside) for _ in range(rng.randint(1, 3))]
+            if sw is not None and not sw.f36:
+                lines = [l if not ends_multibyte(l.rstrip("/").rstrip()) or rng.random() < 0.17 else l + "*" for l in lines]
             eol = "\r\n" if rng.random() < 0.08 else "\n"
             txt = eol.join(lines) + (eol if rng.random() < 0.8 else "")
             entries.append(["f", (d + "/" if d else "") + IGN, txt])
+    # the motif of P35: a whitelist line that matches the name .xvc / .git, in the root file or in a nested one
+    if rng.random() < 0.17:
+        d = rng.choice(dirs) if rng.random() < 0.4 else ""
+        line = rng.choice(_SPECIAL_WHITE)
+        old = next((e for e in entries if e[1] == (d + "/" if d else "") + IGN), None)
+        if old:
+            old[2] = old[2] + ("" if old[2].endswith("\n") or not old[2] else "\n") + line + "\n"
+        else:
+            entries.append(["f", (d + "/" if d else "") + IGN, line + "\n"])
+        if not any(e[1].split("/")[-1] in (".git", ".xvc") for e in entries):
+            q = (d + "/" if d else "") + rng.choice([".git", ".xvc"])
+            entries.append(["d", q, ""]); entries.append(["f", q + "/HEAD", ""])
     # the motif of P17: a nested ignore file with a name-only line naming a file of another directory
     if nested and rng.random() < 0.5:
         d = rng.choice(nested)
@@ -738,14 +908,14 @@ def parse_model_walk(line):
     if "spec" not in d:
         return {"error": line}
     return {"spec": paths(d.get("spec")), "serial": None if d.get("serial") == "OOF" else paths(d.get("serial")),
-            "par": paths(d.get("par")), "final": d.get("final") == "1", "wf": d.get("wf") == "1"}
+            "par": paths(d.get("par")), "final": d.get("final") == "1", "wf": d.get("wf") == "1", "panic": d.get("panic") == "1"}
 
 
-def model_walks(model_bin, trees, globals_txt, fixed, nthreads=8, scheds=None):
+def model_walks(model_bin, trees, globals_txt, sw, nthreads=8, scheds=None):
     lines = []
     for i, t in enumerate(trees):
         sched = scheds[i] if scheds else []
-        lines.append("w %d %d %s %s %s %d" % (1 if fixed else 0, nthreads, _hx(globals_txt), enc_entries(t),
+        lines.append("w %s %d %s %s %s %d" % (sw.s, nthreads, _hx(globals_txt), enc_entries(t),
                                               ",".join("%d.%d" % s for s in sched) or "-", 6 * len(t) + 12))
     rc, out = C.run_lines(model_bin, lines, shards=8)
     return [parse_model_walk(l) for l in out] + [{"error": "no answer"}] * (len(trees) - len(out))
@@ -767,7 +937,7 @@ def foreign_hits(model_bin, entries, paths):
             rules.append((parent_of(p), c))
     if not rules or not paths:
         return {q: [] for q in paths}
-    rc, out = C.run_lines(model_bin, ["c %s %s" % (_hx(d), _hx(c)) for d, c in rules])
+    rc, out = C.run_lines(model_bin, ["c %s %s 1" % (_hx(d), _hx(c)) for d, c in rules])
     globs = []
     for (d, c), ans in zip(rules, out):
         if ans in ("-", "PANIC") or ans.startswith("ERROR"):
@@ -805,16 +975,35 @@ def p17_explains(model_bin, entries, ref, observed_sets):
 
 
 WHITE_CLASS = "whitelist-line-reincludes-xvc-or-git"
+P36_CLASS = "pattern-ends-in-multibyte-char"
 
 
-def whitelist_explains(model_bin, entries, paths, fixed):
-    """the class predicate of the second finding: for every reported path with a .xvc / .git component,
-    the directory of that name is matched by the glob of a whitelist ('!') line of some ignore file
-    (with the locality fix: of an ignore file above it)"""
+def p36_explains(model_bin, entries, globals_txt, sw, extra_lines=()):
+    """the class predicate of P36: some ignore file of the tree (or a global line, or one of extra_lines: the
+    rules xvc itself writes for tracked paths) has a rule line whose last character -- after the '!' /
+    blank / final-slash handling of Pattern::new -- is multi-byte (decided by the model: pattern_new_panics,
+    Coq: Walker.Model.known_P36).  Follows the switch: empty with the repair of P36 in the tree."""
+    if sw.f36:
+        return False, {}
+    texts = [(p, c) for k, p, c in entries if k == "f" and p.split("/")[-1] == IGN and c]
+    texts += [("<global>", globals_txt)] + [("<written by xvc>", l + "\n") for l in extra_lines]
+    rc, out = C.run_lines(model_bin, ["c - %s 0" % _hx(c) for _, c in texts])
+    why = {p: "a rule line ends in a multi-byte character" for (p, c), ans in zip(texts, out) if ans == "PANIC"}
+    return bool(why), why
+
+
+def whitelist_explains(model_bin, entries, paths, sw):
+    """the class predicate of P35: for every reported path with a .xvc / .git component, the directory of
+    that name is matched by the glob of a whitelist ('!') line of some ignore file (with the locality fix:
+    of an ignore file above it).  The class follows the switch: with the repair of P35 in the tree it is
+    empty (Props/C09.v whitelist_class_empty_when_fixed) and nothing is explained."""
+    if sw.f35:
+        return False, {}
+    fixed = sw.f17
     rules = [(parent_of(p), c) for k, p, c in entries if k == "f" and p.split("/")[-1] == IGN]
     if not rules or not paths:
         return False, {}
-    rc, out = C.run_lines(model_bin, ["c %s %s" % (_hx(d), _hx(c)) for d, c in rules])
+    rc, out = C.run_lines(model_bin, ["c %s %s 1" % (_hx(d), _hx(c)) for d, c in rules])
     wl = []
     for (d, c), ans in zip(rules, out):
         if ans in ("-", "PANIC") or ans.startswith("ERROR"):
@@ -900,7 +1089,7 @@ def oracle_locality(d, res, res_variant):
 
 
 # ---- H2 traces ---------------------------------------------------------------------------------------
-def trace_model_line(entries, tr, globals_txt, fixed, nthreads=8):
+def trace_model_line(entries, tr, globals_txt, sw, nthreads=8):
     """the `t` line for one logged run: paths made relative to the walk root (the path of the `start`
     event), children of every directory ordered as they were checked"""
     evs = tr["events"]
@@ -921,7 +1110,7 @@ def trace_model_line(entries, tr, globals_txt, fixed, nthreads=8):
         else:
             items.append("%d.%s.%s" % (e["th"], e["ev"], _hx(p)))
     t = reorder(entries, lambda p: order.get(p, 1 << 30))
-    return "t %d %d %s %s %s" % (1 if fixed else 0, nthreads, _hx(globals_txt), enc_entries(t), ",".join(items) or "-")
+    return "t %s %d %s %s %s" % (sw.s, nthreads, _hx(globals_txt), enc_entries(t), ",".join(items) or "-")
 
 
 def interleaving_degree(tr):
@@ -931,11 +1120,12 @@ def interleaving_degree(tr):
 
 
 # ---- one batch of trees: correspondence + oracle -----------------------------------------------------
-def walk_batch(chk, bins, base, trees, globals_txt, fixed, reps, jitter_seed, want_locality=True, label="gen"):
+def walk_batch(chk, bins, base, trees, globals_txt, sw, reps, jitter_seed, want_locality=True, label="gen"):
     """runs the real walkers and the model on the trees; returns (failures, stats).  A failure is a dict
     {kind: oracle|correspondence, what, tree, detail, klass}"""
     model_bin, walkdrv = bins["model"], bins["walkdrv"]
     rng = chk.rng
+    fixed = sw.f17
     stats = {"trees": len(trees), "walks": 0, "traces": 0, "trace_events": 0, "interleaved_pairs": 0, "nondeterministic_trees": 0,
              "serial_ne_parallel_trees": 0, "locality_variants": 0}
     fails = []
@@ -946,8 +1136,8 @@ def walk_batch(chk, bins, base, trees, globals_txt, fixed, reps, jitter_seed, wa
         pos = {p: i for i, p in enumerate(r.get("serial") or [])}
         ordered.append(reorder(t, lambda p: pos.get(p, 1 << 30)))
     scheds = [random_schedule(rng, 8, rng.randint(0, 5 * len(t))) for t in trees]
-    m_now = model_walks(model_bin, ordered, globals_txt, fixed, scheds=scheds)
-    m_ref = m_now if fixed else model_walks(model_bin, ordered, globals_txt, True, scheds=scheds)
+    m_now = model_walks(model_bin, ordered, globals_txt, sw, scheds=scheds)
+    m_ref = m_now if fixed else model_walks(model_bin, ordered, globals_txt, sw.with_f17(True), scheds=scheds)
     variants, vidx = [], []
     if want_locality:
         for i, t in enumerate(trees):
@@ -964,6 +1154,20 @@ def walk_batch(chk, bins, base, trees, globals_txt, fixed, reps, jitter_seed, wa
             fails.append({"kind": "correspondence", "what": "the model rejected the tree: %r" % (mn,), "tree": t, "detail": {}, "klass": None})
             continue
         ref = mr["spec"]
+        # a walk that dies in Pattern::new (finding P36): the model says when (walk_panics)
+        real_panic = bool(r.get("panic"))
+        if real_panic or mn.get("panic"):
+            stats["panics"] = stats.get("panics", 0) + 1
+            if real_panic and mn.get("panic"):
+                ok, why = p36_explains(model_bin, t, globals_txt, sw)
+                fails.append({"kind": "oracle", "what": "the walk panicked on a line of an ignore file (Pattern::new: byte index is not a char boundary)",
+                              "tree": t, "detail": {"lines": why}, "klass": P36_CLASS if ok else None, "cat": "panic"})
+            elif real_panic:
+                fails.append({"kind": "oracle", "what": "the walk panicked (the model of Pattern::new does not)", "tree": t, "detail": r, "klass": None, "cat": "panic"})
+            else:
+                fails.append({"kind": "correspondence", "what": "the model says the walk panics in Pattern::new (walk_panics, fixed_P36=%s); the implementation returned a result" % sw.f36,
+                              "tree": t, "detail": {}, "klass": None})
+            continue
         obs = oracle_walk(t, r)
         if "serial" in r:
             observed_sets = [r["serial"]] + [p["set"] for p in r["par"]]
@@ -983,13 +1187,13 @@ def walk_batch(chk, bins, base, trees, globals_txt, fixed, reps, jitter_seed, wa
                               "klass": P17_CLASS if ok else None, "cat": "sets"})
             for cat, what, det in obs:
                 if cat == "special":
-                    ok, why = whitelist_explains(model_bin, t, det["paths"], fixed)
+                    ok, why = whitelist_explains(model_bin, t, det["paths"], sw)
                     fails.append({"kind": "oracle", "what": what, "tree": t, "detail": dict(det, whitelist_lines=why), "klass": WHITE_CLASS if ok else None, "cat": cat})
                 elif cat == "structure":
                     fails.append({"kind": "oracle", "what": what, "tree": t, "detail": det, "klass": None, "cat": cat})
             # correspondence with the model of the code as it is now
             if mn["serial"] is None or r["serial"] != mn["serial"]:
-                fails.append({"kind": "correspondence", "what": "walk_serial: the model (fixed_P17=%s) lists %r, the implementation %r" % (fixed, mn["serial"], r["serial"]),
+                fails.append({"kind": "correspondence", "what": "walk_serial: the model (switches %s) lists %r, the implementation %r" % (sw.s, mn["serial"], r["serial"]),
                               "tree": ordered[i], "detail": {"model": mn["serial"], "observed": r["serial"]}, "klass": None})
             if not mn["final"]:
                 fails.append({"kind": "correspondence", "what": "the model run did not reach a final configuration within its rounds", "tree": t, "detail": {}, "klass": None})
@@ -1003,7 +1207,7 @@ def walk_batch(chk, bins, base, trees, globals_txt, fixed, reps, jitter_seed, wa
                                       "tree": t, "detail": {}, "klass": None})
                         break
             for tr in r.get("traces", []):
-                l = trace_model_line(t, tr, globals_txt, fixed)
+                l = trace_model_line(t, tr, globals_txt, sw)
                 if l is None:
                     fails.append({"kind": "correspondence", "what": "H2 trace without a start event", "tree": t, "detail": {"events": tr["events"][:5]}, "klass": None})
                     continue
@@ -1011,7 +1215,7 @@ def walk_batch(chk, bins, base, trees, globals_txt, fixed, reps, jitter_seed, wa
                 stats["trace_events"] += len(tr["events"]); stats["interleaved_pairs"] += interleaving_degree(tr)
         else:
             fails.append({"kind": "oracle", "what": "the walk failed: %s" % (r.get("error") or "panic"), "tree": t, "detail": r, "klass": None})
-    vref = model_walks(model_bin, variants, globals_txt, True) if variants else []
+    vref = model_walks(model_bin, variants, globals_txt, sw.with_f17(True)) if variants else []
     for (i, d), tv, rv, mv in zip(vidx, variants, vres, vref):
         o = oracle_locality(d, real[i], rv)
         if o:
@@ -1082,7 +1286,7 @@ def shrink_tree(entries, still_fails, budget=60):
     return cur
 
 
-def report_walk_failures(chk, bins, base, fails, globals_txt, fixed, reps, jitter_seed, stage="walk"):
+def report_walk_failures(chk, bins, base, fails, globals_txt, sw, reps, jitter_seed, stage="walk"):
     """shrinks the first failures of each (kind, class) and reports all of them"""
     shrunk_budget = {}
     reported = {}
@@ -1099,10 +1303,10 @@ def report_walk_failures(chk, bins, base, fails, globals_txt, fixed, reps, jitte
             loc = f.get("cat") == "locality"
 
             def still(t, f=f, loc=loc):
-                fs, _ = walk_batch(_Quiet(chk), bins, base, [t], globals_txt, fixed, reps, jitter_seed, want_locality=loc, label="shrink")
+                fs, _ = walk_batch(_Quiet(chk), bins, base, [t], globals_txt, sw, reps, jitter_seed, want_locality=loc, label="shrink")
                 return any(x["kind"] == f["kind"] and x["klass"] == f["klass"] and x.get("cat") == f.get("cat") for x in fs)
             small = shrink_tree(tree, still, budget=(25 if f["klass"] else 80))
-            fs, _ = walk_batch(_Quiet(chk), bins, base, [small], globals_txt, fixed, reps, jitter_seed, want_locality=loc, label="shrink")
+            fs, _ = walk_batch(_Quiet(chk), bins, base, [small], globals_txt, sw, reps, jitter_seed, want_locality=loc, label="shrink")
             g = next((x for x in fs if x["kind"] == f["kind"] and x["klass"] == f["klass"] and x.get("cat") == f.get("cat")), None)
             if g is not None:
                 f = dict(g, unshrunk=tree)
@@ -1123,7 +1327,7 @@ class _Quiet:
 
 
 # ---- the CLI level -------------------------------------------------------------------------------------
-def cli_case(xvc_bin, model_bin, entries, globals_txt, repeats=3, track_dir=None):
+def cli_case(xvc_bin, model_bin, entries, globals_txt, sw, repeats=3, track_dir=None):
     """`xvc file list`, `xvc check-ignore`, `xvc file track <dir>/` on a repository holding the tree.
     Returns (failures, n_invocations); a failure is (what, detail, observed_sets)."""
     from .xvc import XvcRepo
@@ -1142,7 +1346,7 @@ def cli_case(xvc_bin, model_bin, entries, globals_txt, repeats=3, track_dir=None
                 os.makedirs(repo.path(p), exist_ok=True)
             else:
                 repo.write(p, c if c else "data of " + p)
-        m = model_walks(model_bin, [tree], globals_txt, True)[0]
+        m = model_walks(model_bin, [tree], globals_txt, sw.with_f17(True))[0]
         if "error" in m:
             return [("model rejected the CLI tree", m, [])], 0
         ref = set(q for q in m["spec"])
@@ -1190,8 +1394,9 @@ def cli_case(xvc_bin, model_bin, entries, globals_txt, repeats=3, track_dir=None
         # ".xvc and .git are never traversed")
         files_all = [e[1] for e in tree if e[0] == "f" and e[1].rsplit("/", 1)[-1] != IGN]
         hidden = [q for q in files_all if q not in ref and "/" in q and parent_of(q) not in ref][:3]
-        # (a `!` line can re-include .git: the open finding P35; such trees do not get the .git target)
-        has_white = any(l.lstrip().startswith("!") for e in tree if e[0] == "f" and e[1].rsplit("/", 1)[-1] == IGN for l in e[2].split("\n"))
+        # (without the repair of P35 a `!` line can re-include .git: such trees do not get the .git target then;
+        # with the repair every tree gets it)
+        has_white = (not sw.f35) and any(l.lstrip().startswith("!") for e in tree if e[0] == "f" and e[1].rsplit("/", 1)[-1] == IGN for l in e[2].split("\n"))
         host = None if has_white else next((e[1] for e in tree if e[0] == "d" and e[1] in ref), None)
         if host:
             repo.write(host + "/.git/config", "[core]\n")
@@ -1226,10 +1431,12 @@ def cli_case(xvc_bin, model_bin, entries, globals_txt, repeats=3, track_dir=None
     return [(w, d, o, tree, sorted(ref)) for w, d, o in fails], n
 
 
-def gen_cli_tree(rng):
-    """small trees with plain names (what a user would write)"""
-    dirs = rng.sample(["a", "b", "c", "data", "sub"], rng.randint(2, 4))
-    files = ["foo.tmp", "a.txt", "x.dat", "notes.md"]
+def gen_cli_tree(rng, sw):
+    """small trees with plain names (what a user would write); with the repair of P36 in the tree also names
+    with multi-byte characters, with the repair of P35 also whitelist lines aimed at .xvc / .git (the inputs
+    that were excluded while the findings were open)"""
+    dirs = rng.sample(["a", "b", "c", "data", "sub"] + (["donn\u00e9es"] if sw.f36 else []), rng.randint(2, 4))
+    files = ["foo.tmp", "a.txt", "x.dat", "notes.md"] + (["\u00e9", "\u65e5\u672c"] if sw.f36 else [])
     entries = [["f", "top.txt", ""]]
     for d in dirs:
         entries.append(["d", d, ""])
@@ -1243,9 +1450,46 @@ def gen_cli_tree(rng):
         if rng.random() < 0.55:
             inside = [n[len(d) + 1 if d else 0:] for n in names if under(n, d)]
             lines = [_walk_line(rng, names, inside) for _ in range(rng.randint(1, 2))]
-            lines = [l for l in lines if all(32 < ord(ch) < 127 for ch in l)] or ["*.tmp"]
+            lines = [l for l in lines if all(32 < ord(ch) < 127 or (sw.f36 and ord(ch) > 160) for ch in l)] or ["*.tmp"]
+            if sw.f35 and rng.random() < 0.35:
+                lines.append(rng.choice(_SPECIAL_WHITE))
             entries.append(["f", (d + "/" if d else "") + IGN, "\n".join(lines) + "\n"])
     return reorder(entries, lambda p: 0)
+
+
+def cli36_case(xvc_bin, inp):
+    """P36 at the command line: tracking a path whose name ends in a multi-byte character (xvc writes the rule
+    `/<name>` into .gitignore and reads it back through Pattern::new), or an ignore line that ends in one.
+    Oracle from the property: every command ends without a panic, the targets are tracked, and a later
+    command on another file still works.  Returns (failures [(what, detail)], invocations, rules written)."""
+    from .xvc import XvcRepo
+    fails, n = [], 0
+    with XvcRepo(xvc_bin, prefix="c09p36", git=False) as repo:
+        for f in inp["files"]:
+            if "/" in f:
+                os.makedirs(os.path.dirname(repo.path(f)), exist_ok=True)
+            repo.write(f, "data of " + f)
+        if inp.get("ignore"):
+            repo.write(IGN, (repo.read(IGN) or b"").decode() + inp["ignore"])
+        steps = [("file", "list", "--format", "{{name}}", "--no-summary"),
+                 ("file", "track") + tuple(inp["track"]),
+                 ("file", "list", "--format", "{{cst}} {{name}}", "--no-summary"),
+                 ("file", "track", inp["later"]),
+                 ("file", "list", "--format", "{{cst}} {{name}}", "--no-summary")]
+        last = None
+        for st in steps:
+            r = repo.xvc(*st)
+            n += 1
+            if r.panicked:
+                fails.append(("xvc %s panicked: %s" % (" ".join(st[:2]), (r.err + r.out).strip().split("\n")[-1][-160:]), {"step": list(st)}))
+                break
+            last = r
+        else:
+            tracked = sorted(l.split(" ", 1)[1].strip() for l in last.out.split("\n") if l.strip() and not l.startswith("X") and " " in l.strip())
+            missing = [t for t in inp["track"] + [inp["later"]] if t not in tracked]
+            if missing:
+                fails.append(("xvc file track did not record %s" % ", ".join(missing), {"tracked": tracked}))
+    return fails, n, ["/" + t for t in inp["track"]]
 
 
 # ---- the check -------------------------------------------------------------------------------------------
@@ -1261,11 +1505,11 @@ def load_corpus():
     return out
 
 
-def report_cli(chk, model_bin, fails, globals_txt, fixed, seen=None):
+def report_cli(chk, model_bin, fails, globals_txt, sw, seen=None):
     seen = seen if seen is not None else {}
     for what, det, observed, tree, ref in fails:
         if "special" in det:
-            ok, why = whitelist_explains(model_bin, tree, det["special"], fixed)
+            ok, why = whitelist_explains(model_bin, tree, det["special"], sw)
             klass = WHITE_CLASS if ok else None
         else:
             ok, why = p17_explains(model_bin, tree, ref, observed) if observed else (False, {})
@@ -1281,6 +1525,18 @@ def report_cli(chk, model_bin, fails, globals_txt, fixed, seen=None):
                  name="cli", klass=klass)
 
 
+def run_cli36(chk, xvc_bin, model_bin, inp, globals_txt, sw):
+    fl, n, written = cli36_case(xvc_bin, inp)
+    chk.count(("cli36", repr(sorted(inp.items()))), True)
+    for what, det in fl[:1]:
+        entries = [["f", IGN, inp.get("ignore", "")]]
+        ok, why = p36_explains(model_bin, entries, globals_txt, sw, extra_lines=written)
+        chk.fail("oracle", what, {"stage": "cli36", "input": inp, "detail": dict(det, explained_by=why),
+                                  "theorem_or_correspondence": "walk_never_panics_fixed / walk_no_panic_outside_P36; CLI level"},
+                 name="cli36", klass=P36_CLASS if ok else None)
+    return len(fl), n
+
+
 def run(chk, replay=None):
     tier, rng = chk.tier, chk.rng
     quick = tier == "quick"
@@ -1288,7 +1544,7 @@ def run(chk, replay=None):
     chk.cov["trusted_base"] = TRUSTED
     chk.assumptions += ["the directory tree does not change while it is walked",
                         "file names are non-empty byte strings without '/' and distinct within a directory (wf_tree)",
-                        "ignore files are ASCII in the generated trees (a multi-byte last character makes Pattern::new panic: pattern_new_panics, outside the property)"]
+                        "file names and ignore files are valid UTF-8 (a name that is not is shown to the patterns through to_string_lossy; an ignore file that is not makes the walk return an error)"]
     gen = _load_gen()
     notes = gen.main(C.REPO, C.ROOT)
     chk.cov["translator_notes"] = notes
@@ -1302,8 +1558,20 @@ def run(chk, replay=None):
     hb = C.ensure_harness(["globdrv", "walkdrv"])
     xvc_bin = C.ensure_xvc()
     bins = {"model": model_bin, "walkdrv": hb["walkdrv"], "globdrv": hb["globdrv"]}
-    fixed = probe_fixed(hb["globdrv"])
+    sw = probe_switches(hb["globdrv"])
+    fixed = sw.f17
     chk.cov["fixed_P17_in_tree"] = fixed
+    chk.cov["switches_in_tree"] = sw.as_dict()
+    C.log("switches derived from the code: %s" % sw.as_dict())
+    class_switch = {P17_CLASS: sw.f17, WHITE_CLASS: sw.f35, P36_CLASS: sw.f36}
+    chk.cov["claimed_for_this_tree"] = [
+        "pattern_local, par_walk_deterministic, serial_eq_spec, serial_eq_parallel (fixed_P17 = true)" if sw.f17 else
+        "par_walk_deterministic_outside_P17, serial_eq_spec_outside_P17 (fixed_P17 = false: outside the class known_P17)",
+        "never_enters_xvc_git_fixed, par_never_enters_xvc_git_fixed: the full statement, no class excluded (fixed_P35 = true; whitelist_class_empty_when_fixed)" if sw.f35 else
+        "never_enters_xvc_git, par_never_enters_xvc_git outside the class whitelists_special (fixed_P35 = false; never_enters_xvc_git_refuted is the witness inside it)",
+        "walk_never_panics_fixed: no walk dies in Pattern::new (fixed_P36 = true; P36_class_empty_when_fixed)" if sw.f36 else
+        "walk_no_panic_outside_P36 (fixed_P36 = false; walk_panics_refuted is the witness inside the class known_P36)",
+        "ignored_dir_hides_subtree, par_walk_terminates / progress / steps_bounded / stuck_is_final: for every setting of the switches"]
     base = C.scratch_dir("c09")
     dist = {}
     try:
@@ -1314,18 +1582,21 @@ def run(chk, replay=None):
             inp = replay.get("input", replay)
             stage = replay.get("stage", "walk")
             if stage == "glob" or isinstance(inp, str):
+                inp = with_switches(inp, sw)
                 a = C.run_lines(model_bin, [inp])[1]; b = C.run_lines(hb["globdrv"], [inp])[1]
                 chk.count(inp, True)
                 if a != b:
                     chk.fail("correspondence", "glob model and implementation differ on %s: model %s, implementation %s" % (_glob_readable(inp), a, b),
                              {"stage": "glob", "input": inp, "theorem_or_correspondence": GLOB_TIE}, name="glob", has_input=False)
             elif stage == "cli":
-                fs, n = cli_case(xvc_bin, model_bin, inp["entries"], inp.get("globals", globals_txt), track_dir=inp.get("track_dir"))
+                fs, n = cli_case(xvc_bin, model_bin, inp["entries"], inp.get("globals", globals_txt), sw, track_dir=inp.get("track_dir"))
                 chk.count(("cli", enc_entries(inp["entries"])), True)
-                report_cli(chk, model_bin, fs, globals_txt, fixed)
+                report_cli(chk, model_bin, fs, globals_txt, sw)
+            elif stage == "cli36":
+                run_cli36(chk, xvc_bin, model_bin, inp, globals_txt, sw)
             else:
-                fs, st = walk_batch(chk, bins, base, [inp["entries"]], inp.get("globals", globals_txt), fixed, inp.get("reps", reps), jitter)
-                report_walk_failures(chk, bins, base, fs, inp.get("globals", globals_txt), fixed, inp.get("reps", reps), jitter)
+                fs, st = walk_batch(chk, bins, base, [inp["entries"]], inp.get("globals", globals_txt), sw, inp.get("reps", reps), jitter)
+                report_walk_failures(chk, bins, base, fs, inp.get("globals", globals_txt), sw, inp.get("reps", reps), jitter)
                 dist["walk"] = st
             chk.cov["distribution"] = dist
             chk.cov["rule"] = "replay of one recorded input"
@@ -1338,36 +1609,48 @@ def run(chk, replay=None):
         if ctrees:
             for c in ctrees:
                 inp = c["input"]
-                fs, st = walk_batch(chk, bins, base, [inp["entries"]], inp.get("globals", globals_txt), fixed, inp.get("reps", reps), jitter)
-                if c.get("expect_class") and (fixed is False or c.get("expect_always")) and not any(f["klass"] == c["expect_class"] for f in fs):
+                fs, st = walk_batch(chk, bins, base, [inp["entries"]], inp.get("globals", globals_txt), sw, inp.get("reps", reps), jitter)
+                # a witness must show its finding as long as the repair of its class is not in the tree (and, with
+                # the repair in the tree, must pass every oracle: a repaired class explains nothing)
+                if c.get("expect_class") and not class_switch.get(c["expect_class"], False) and not any(f["klass"] == c["expect_class"] for f in fs):
                     chk.fail("correspondence", "corpus witness %s no longer shows its finding although no fix for it is in the tree" % c["name"],
                              {"stage": "walk", "input": inp, "theorem_or_correspondence": "findings.d/C09.json witness"}, name="corpus", has_input=False)
-                report_walk_failures(chk, bins, base, fs, inp.get("globals", globals_txt), fixed, inp.get("reps", reps), jitter)
+                report_walk_failures(chk, bins, base, fs, inp.get("globals", globals_txt), sw, inp.get("reps", reps), jitter)
         for c in [c for c in corpus if c.get("stage") == "glob"]:
-            a = C.run_lines(model_bin, [c["input"]])[1]; b = C.run_lines(hb["globdrv"], [c["input"]])[1]
-            chk.count(c["input"], True)
+            line = with_switches(c["input"], sw)
+            a = C.run_lines(model_bin, [line])[1]; b = C.run_lines(hb["globdrv"], [line])[1]
+            chk.count(line, True)
             if a != b:
                 chk.fail("correspondence", "corpus %s: glob model %s, implementation %s" % (c["name"], a, b),
-                         {"stage": "glob", "input": c["input"], "theorem_or_correspondence": GLOB_TIE}, name="glob", has_input=False)
+                         {"stage": "glob", "input": line, "theorem_or_correspondence": GLOB_TIE}, name="glob", has_input=False)
+            if c.get("expect_answer_unfixed") and not class_switch.get(c.get("expect_class"), False) and b != [c["expect_answer_unfixed"]]:
+                chk.fail("correspondence", "corpus witness %s no longer shows its finding (%r) although no fix for it is in the tree: %r" % (c["name"], c["expect_answer_unfixed"], b),
+                         {"stage": "glob", "input": line, "theorem_or_correspondence": "findings.d/C09.json witness"}, name="corpus", has_input=False)
         ncli = 0
         for c in [c for c in corpus if c.get("stage") == "cli"]:
             inp = c["input"]
-            fs, n = cli_case(xvc_bin, model_bin, inp["entries"], inp.get("globals", globals_txt), track_dir=inp.get("track_dir"))
+            fs, n = cli_case(xvc_bin, model_bin, inp["entries"], inp.get("globals", globals_txt), sw, track_dir=inp.get("track_dir"))
             ncli += n
             chk.count(("cli", enc_entries(inp["entries"])), True)
-            report_cli(chk, model_bin, fs, globals_txt, fixed)
+            report_cli(chk, model_bin, fs, globals_txt, sw)
+        for c in [c for c in corpus if c.get("stage") == "cli36"]:
+            nf, n = run_cli36(chk, xvc_bin, model_bin, c["input"], globals_txt, sw)
+            ncli += n
+            if not sw.f36 and not nf:
+                chk.fail("correspondence", "corpus witness %s no longer shows its finding although no fix for it is in the tree" % c["name"],
+                         {"stage": "cli36", "input": c["input"], "theorem_or_correspondence": "findings.d/C09.json witness"}, name="corpus", has_input=False)
         dist["corpus"] = {"cases": len(corpus), "wall_s": round(time.time() - t0, 1)}
 
         # ---- (1) glob correspondence
-        dist["glob"] = glob_correspondence(chk, model_bin, hb["globdrv"], tier, fixed)
+        dist["glob"] = glob_correspondence(chk, model_bin, hb["globdrv"], tier, sw)
 
         # ---- (2) walks
         t0 = time.time()
         ntrees = 180 if quick else 1800
-        trees = [gen_tree(rng) for _ in range(ntrees)]
+        trees = [gen_tree(rng, sw) for _ in range(ntrees)]
         # the same tree in a second enumeration order of the entries (creation order on disk)
         trees += [shuffle_tree(rng, t) for t in trees[:ntrees // 6]]
-        fs, st = walk_batch(chk, bins, base, trees, globals_txt, fixed, reps, jitter)
+        fs, st = walk_batch(chk, bins, base, trees, globals_txt, sw, reps, jitter)
         st["wall_s"] = round(time.time() - t0, 1)
         st["failures_by_class"] = {}
         for f in fs:
@@ -1376,6 +1659,9 @@ def run(chk, replay=None):
         st["nodes"] = {"min": min(len(t) for t in trees), "max": max(len(t) for t in trees), "mean": round(sum(len(t) for t in trees) / len(trees), 1)}
         st["ignore_files"] = sum(1 for t in trees for e in t if e[1].split("/")[-1] == IGN)
         st["nontrivial_trees"] = sum(1 for t in trees if tree_is_nontrivial(t))
+        st["trees_with_multibyte_names"] = sum(1 for t in trees if any(ord(max(e[1])) > 127 for e in t))
+        st["trees_with_multibyte_ignore_lines"] = sum(1 for t in trees if any(e[2] and ord(max(e[2])) > 127 for e in t if e[1].split("/")[-1] == IGN))
+        st["trees_with_whitelist_on_special"] = sum(1 for t in trees if any(l.strip() in _SPECIAL_WHITE for e in t if e[1].split("/")[-1] == IGN for l in e[2].split("\n")))
         st["h2_present"] = st["traces"] > 0
         dist["walk"] = st
         chk.cov["traces_validated_against_impl"] = st["traces"]
@@ -1387,23 +1673,23 @@ def run(chk, replay=None):
             st["trees"], st["walks"], st["traces"], st["trace_events"], st["interleaved_pairs"], st["locality_variants"], len(fs), st["failures_by_class"], st["wall_s"]))
         for t in (trees[0], trees[len(trees) // 2]):
             chk.sample("tree: " + "; ".join("%s%s" % (p, ("=" + repr(c)) if c else "") for k, p, c in t)[:600], limit=16)
-        report_walk_failures(chk, bins, base, fs, globals_txt, fixed, reps, jitter)
+        report_walk_failures(chk, bins, base, fs, globals_txt, sw, reps, jitter)
 
         # ---- (3) CLI level
         t0 = time.time()
         ncases = 8 if quick else 40
         from concurrent.futures import ThreadPoolExecutor
-        ctrees = [gen_cli_tree(rng) for _ in range(ncases)]
+        ctrees = [gen_cli_tree(rng, sw) for _ in range(ncases)]
         tdirs = [rng.choice([e[1] for e in t if e[0] == "d" and "/" not in e[1]]) for t in ctrees]
         with ThreadPoolExecutor(4) as ex:
-            rs = list(ex.map(lambda a: cli_case(xvc_bin, model_bin, a[0], globals_txt, repeats=3 if quick else 5, track_dir=a[1]), zip(ctrees, tdirs)))
+            rs = list(ex.map(lambda a: cli_case(xvc_bin, model_bin, a[0], globals_txt, sw, repeats=3 if quick else 5, track_dir=a[1]), zip(ctrees, tdirs)))
         nfail = 0
         seen_cli = {}
         for t, (fl, n) in zip(ctrees, rs):
             ncli += n
             chk.count(("cli", enc_entries(t)), tree_is_nontrivial(t))
             nfail += len(fl)
-            report_cli(chk, model_bin, fl, globals_txt, fixed, seen_cli)
+            report_cli(chk, model_bin, fl, globals_txt, sw, seen_cli)
         dist["cli"] = {"repositories": ncases, "xvc_invocations": ncli, "failures": nfail, "wall_s": round(time.time() - t0, 1)}
         C.log("cli: %d repositories, %d xvc invocations, %d failure(s), %.1fs" % (ncases, ncli, nfail, time.time() - t0))
     finally:
